@@ -216,11 +216,16 @@ def check(model, rep):
                     if f_ is not None and nm not in ('IKinSpace', 'IKinBody', 'IKinSpaceConstrained') and depth < 3 and any(recomputes(s_, depth + 1) for s_ in f_.body):
                         return True
             return False
-        pos = w.body.index(cst)
-        upd = [s_ for s_ in w.body[:pos + 1] if ((isinstance(s_, ast.Assign) and src(s_.targets[0]) == kth) or
-                                                 (isinstance(s_, ast.AugAssign) and src(s_.target) == kth))]
-        rec = [s_ for s_ in w.body[pos + 1:] if isinstance(s_, ast.Assign) and recomputes(s_.value)]
-        late = [s_ for s_ in w.body[pos + 1:] if (isinstance(s_, ast.Assign) and src(s_.targets[0]) == kth) or (isinstance(s_, ast.AugAssign) and src(s_.target) == kth)]
+        def writes_th(s_):
+            return (isinstance(s_, ast.Assign) and src(s_.targets[0]) == kth) or (isinstance(s_, ast.AugAssign) and src(s_.target) == kth)
+        # the loop body is a cycle: read it starting at the first joint update (a loop written `while True: evaluate; if done: break;
+        # update; clamp` recomputes the error at the top of the next round)
+        first_upd = next((k_ for k_, s_ in enumerate(w.body) if writes_th(s_)), 0)
+        cyc = w.body[first_upd:] + w.body[:first_upd]
+        pos = cyc.index(cst)
+        upd = [s_ for s_ in cyc[:pos + 1] if writes_th(s_)]
+        rec = [s_ for s_ in cyc[pos + 1:] if isinstance(s_, ast.Assign) and recomputes(s_.value)]
+        late = [s_ for s_ in cyc[pos + 1:] if writes_th(s_)]
         rep.ob('R07.3', kc, 'Newton update <= clamp < error recomputation', bool(upd) and bool(rec) and not late,
                'the clamp does not sit between the joint update and the recomputation of the pose error (or the joints are '
                'changed again after clamping)', line=cst.lineno)
